@@ -61,8 +61,8 @@ func (d *driver) items(w *world, stNode int, run string) {
 			h.fn(w, c)
 			w.App.LendKeeper.SetBorrow(c, b) // take the mask off
 		}, dg)
-		d.log.Add(stNode, run, "Item", map[string]interface{}{"hook": "liqv2", "kind": "borrow", "id": id},
-			map[string]interface{}{"probeFailed": failed, "probeErr": msg, "returned": faultRun.Returned, "retRef": ref.Returned, "panicS": faultRun.PanicS},
+		d.log.Add(stNode, run, "Item", map[string]interface{}{"state": d.state, "hook": "liqv2", "kind": "borrow", "id": id},
+			map[string]interface{}{"probeFailed": failed, "probeErr": msg, "returned": faultRun.Returned, "retRef": ref.Returned, "panicS": faultRun.PanicS, "panicK": panicKind(faultRun.PanicS)},
 			map[string]interface{}{"dFault": faultRun.Digest, "dRef": ref.Digest})
 		d.stats["items"]++
 	}
@@ -83,8 +83,8 @@ func (d *driver) items(w *world, stNode int, run string) {
 			h.fn(w, c)
 			w.App.VaultKeeper.SetVault(c, v)
 		}, dg)
-		d.log.Add(stNode, run, "Item", map[string]interface{}{"hook": "liqv2", "kind": "vault", "id": v.Id},
-			map[string]interface{}{"probeFailed": failed, "probeErr": msg, "returned": faultRun.Returned, "retRef": ref.Returned, "panicS": faultRun.PanicS},
+		d.log.Add(stNode, run, "Item", map[string]interface{}{"state": d.state, "hook": "liqv2", "kind": "vault", "id": v.Id},
+			map[string]interface{}{"probeFailed": failed, "probeErr": msg, "returned": faultRun.Returned, "retRef": ref.Returned, "panicS": faultRun.PanicS, "panicK": panicKind(faultRun.PanicS)},
 			map[string]interface{}{"dFault": faultRun.Digest, "dRef": ref.Digest})
 		d.stats["items"]++
 	}
